@@ -789,3 +789,269 @@ Proof.
   apply (walk_ijents bs Hleg true Hsep [] [] eq_refl); [reflexivity|exact Hlic|]. simpl. lia.
 Qed.
 Print Assumptions blocks_ini_junk.
+
+(* ---- what the entries contain ----------------------------------------------------------------------------- *)
+Fixpoint ijrecords_of (bs : list ijblock) : list irecord :=
+  match bs with
+  | [] => []
+  | IJB (IEntity cs key val _) :: rest =>
+      (key, val, match cs with [] => None | _ => Some (cbody cs) end) :: ijrecords_of rest
+  | _ :: rest => ijrecords_of rest
+  end.
+Fixpoint ijcomments_of (bs : list ijblock) : list str :=
+  match bs with
+  | [] => []
+  | IJB (IComment cs) :: rest => cbody cs :: ijcomments_of rest
+  | _ :: rest => ijcomments_of rest
+  end.
+Fixpoint ijsections_of (bs : list ijblock) : list str :=
+  match bs with
+  | [] => []
+  | IJB (ISection name _) :: rest => name :: ijsections_of rest
+  | _ :: rest => ijsections_of rest
+  end.
+Fixpoint ijgarbage_of (bs : list ijblock) : list str :=
+  match bs with
+  | [] => []
+  | IJG gl :: rest => igtext gl :: ijgarbage_of rest
+  | _ :: rest => ijgarbage_of rest
+  end.
+
+Definition ijviews (s : str) (es : list entry) (bs : list ijblock) : Prop :=
+  map (entity_record s) (filter (is_kind KEntity) es) = ijrecords_of bs /\
+  map (fun e => span_text s (e_span e)) (filter (is_kind KComment) es) = ijcomments_of bs /\
+  map (fun e => opt_text s (e_val e)) (filter (is_kind KSection) es) = ijsections_of bs /\
+  map (fun e => span_text s (e_span e)) (filter (is_kind KJunk) es) = ijgarbage_of bs.
+
+Lemma ijents_views : forall bs, Forall legal_ijblock bs -> forall (a w : str),
+  ijviews (a ++ w ++ ijfile_text bs) (ijents (length a) (length w) bs) bs.
+Proof.
+  induction bs as [|b rest IH]; intros Hleg a w; unfold ijviews.
+  - simpl ijents. rewrite !flush_no by discriminate. repeat split.
+  - inversion Hleg as [|b' rest' Hb Hrest]; subst b' rest'. specialize (IH Hrest).
+    set (s := a ++ w ++ ijfile_text (b :: rest)).
+    destruct b as [[x|cs|name nl|cs key val nl]|gl].
+    + assert (Hs : s = a ++ (w ++ x) ++ ijfile_text rest).
+      { unfold s. rewrite ijfile_text_cons. cbn [ijtext itext]. rewrite <- app_assoc. reflexivity. }
+      simpl ijents. rewrite <- app_length, Hs. apply IH.
+    + unfold legal_ijblock in Hb. cbn [legal_ijblockb legal_iblockb] in Hb. apply andb_true_iff in Hb.
+      destruct Hb as [Hc1 _].
+      assert (Hne : cs <> []) by (destruct cs; [discriminate|discriminate]).
+      set (A0 := a ++ w ++ cbody cs).
+      assert (Hs : s = A0 ++ [10%N] ++ ijfile_text rest).
+      { unfold s, A0. rewrite ijfile_text_cons. cbn [ijtext itext]. rewrite (ctext_body cs Hne).
+        norm_app. reflexivity. }
+      assert (El : length a + length w + length (cbody cs) = length A0)
+        by (unfold A0; rewrite !app_length; lia).
+      destruct (IH A0 [10%N]) as [I1 [I2 [I3 I4]]]. rewrite <- Hs in I1, I2, I3, I4.
+      change (length [10%N]) with 1 in I1, I2, I3, I4.
+      simpl ijents. rewrite !filter_app, !flush_no by discriminate. rewrite El.
+      cbn [app filter is_kind mk_comment e_kind map e_span]. rewrite I1, I2, I3, I4.
+      split; [reflexivity|split; [|split; reflexivity]]. cbn [ijcomments_of]. f_equal.
+      assert (Hs' : s = (a ++ w) ++ cbody cs ++ [10%N] ++ ijfile_text rest)
+        by (rewrite Hs; unfold A0; norm_app; reflexivity).
+      unfold span_text. cbn [fst snd]. rewrite <- El, <- app_length, Hs'. apply slice_mid.
+    + set (N0 := a ++ w ++ [91%N]).
+      set (A0 := N0 ++ name ++ [93%N]).
+      assert (Hs : s = A0 ++ eol nl ++ ijfile_text rest).
+      { unfold s, A0, N0. rewrite ijfile_text_cons. cbn [ijtext itext]. norm_app. reflexivity. }
+      assert (En : length a + length w + 1 = length N0)
+        by (unfold N0; rewrite !app_length; simpl; lia).
+      assert (Ee : length a + length w + S (length name) + 1 = length A0).
+      { unfold A0, N0. rewrite !app_length. simpl. lia. }
+      destruct (IH A0 (eol nl)) as [I1 [I2 [I3 I4]]]. rewrite <- Hs in I1, I2, I3, I4.
+      simpl ijents. rewrite !filter_app, !flush_no by discriminate. rewrite Ee, En.
+      cbn [app filter is_kind e_kind map e_val]. rewrite I1, I2, I3, I4.
+      split; [reflexivity|split; [reflexivity|split; [|reflexivity]]].
+      cbn [ijsections_of]. f_equal. unfold opt_text, span_text. cbn [fst snd].
+      assert (Hs' : s = N0 ++ name ++ [93%N] ++ eol nl ++ ijfile_text rest)
+        by (rewrite Hs; unfold A0; norm_app; reflexivity).
+      rewrite Hs'. apply slice_mid.
+    + set (K0 := a ++ w ++ ctext cs).
+      set (V0 := K0 ++ key ++ [61%N]).
+      set (A0 := V0 ++ val).
+      assert (Hs : s = A0 ++ eol nl ++ ijfile_text rest).
+      { unfold s, A0, V0, K0. rewrite ijfile_text_cons. cbn [ijtext itext]. norm_app. reflexivity. }
+      assert (Ek : length a + length w + length (ctext cs) = length K0)
+        by (unfold K0; rewrite !app_length; lia).
+      assert (Ev : length K0 + length key + 1 = length V0).
+      { unfold V0. rewrite !app_length. simpl. lia. }
+      assert (Ee : length V0 + length val = length A0) by (unfold A0; rewrite app_length; lia).
+      destruct (IH A0 (eol nl)) as [I1 [I2 [I3 I4]]]. rewrite <- Hs in I1, I2, I3, I4.
+      simpl ijents. rewrite !filter_app, !flush_no by discriminate. rewrite Ek, Ev, Ee.
+      cbn [app filter is_kind e_kind map]. rewrite I1, I2, I3, I4.
+      split; [|split; [reflexivity|split; reflexivity]]. cbn [ijrecords_of]. f_equal.
+      unfold entity_record. cbn [e_key e_val e_pre opt_text].
+      unfold span_text. cbn [fst snd].
+      assert (S1 : slice s (length K0) (length K0 + length key) = key).
+      { replace s with (K0 ++ key ++ ([61%N] ++ val ++ eol nl) ++ ijfile_text rest)
+          by (unfold s, K0; rewrite ijfile_text_cons; cbn [ijtext itext]; norm_app; reflexivity).
+        apply slice_mid. }
+      assert (S2 : slice s (length V0) (length A0) = val).
+      { rewrite <- Ee, Hs. unfold A0. rewrite <- app_assoc. apply slice_mid. }
+      rewrite S1, S2. f_equal.
+      assert (Hcase : cs = [] \/ cs <> []) by (destruct cs; [left; reflexivity|right; discriminate]).
+      destruct Hcase as [Ecs|Hne]; [rewrite Ecs; reflexivity|].
+      rewrite !(match_ne cs) by exact Hne.
+      cbn [option_map]. f_equal. cbn [fst snd].
+      assert (Ec : length K0 - 1 = length (a ++ w) + length (cbody cs)).
+      { rewrite <- Ek, (ctext_body cs Hne), !app_length. simpl. lia. }
+      rewrite <- app_length, Ec.
+      replace s with ((a ++ w) ++ cbody cs ++ [10%N] ++ (key ++ 61%N :: val ++ eol nl) ++ ijfile_text rest)
+        by (unfold s; rewrite ijfile_text_cons; cbn [ijtext itext]; rewrite (ctext_body cs Hne); norm_app; reflexivity).
+      apply slice_mid.
+    + set (A0 := a ++ w ++ igtext gl).
+      assert (Hs : s = A0 ++ [] ++ ijfile_text rest).
+      { unfold s, A0. rewrite ijfile_text_cons. cbn [ijtext]. norm_app. reflexivity. }
+      assert (El : length a + length w + length (igtext gl) = length A0)
+        by (unfold A0; rewrite !app_length; lia).
+      destruct (IH A0 []) as [I1 [I2 [I3 I4]]]. rewrite <- Hs in I1, I2, I3, I4.
+      change (length (@nil N)) with 0 in I1, I2, I3, I4.
+      simpl ijents. rewrite !filter_app, !flush_no by discriminate. rewrite El.
+      cbn [app filter is_kind mk_junk e_kind map e_span]. rewrite I1, I2, I3, I4.
+      split; [reflexivity|split; [reflexivity|split; [reflexivity|]]]. cbn [ijgarbage_of]. f_equal.
+      assert (Hs' : s = (a ++ w) ++ igtext gl ++ ijfile_text rest)
+        by (rewrite Hs; unfold A0; norm_app; reflexivity).
+      unfold span_text. cbn [fst snd]. rewrite <- El, <- app_length, Hs'. apply slice_mid.
+Qed.
+
+(* with garbage regions: the entities are exactly the records, the standalone comments the
+   comment blocks, the sections the section headers, and the Junk entries are, one for one
+   and in order, exactly the garbage regions *)
+Theorem roundtrip_ini_junk : forall bs : list ijblock,
+  Forall legal_ijblock bs -> ijadjacent_ok bs ->
+  exists es, walk_ini (ijfile_text bs) = Ok es /\ ijviews (ijfile_text bs) es bs.
+Proof.
+  intros bs Hleg Hadj. exists (ijentries_of bs). split; [apply blocks_ini_junk; auto|].
+  exact (ijents_views bs Hleg [] []).
+Qed.
+Print Assumptions roundtrip_ini_junk.
+
+(* ---- ONE garbage region between two block lists ---------------------------------------------------------- *)
+Definition iwith_garbage (bs1 : list iblock) (gl : list str) (bs2 : list iblock) : list ijblock :=
+  map IJB bs1 ++ IJG gl :: map IJB bs2.
+
+Lemma ijfile_text_app : forall x y, ijfile_text (x ++ y) = ijfile_text x ++ ijfile_text y.
+Proof. intros. unfold ijfile_text. rewrite map_app, concat_app. reflexivity. Qed.
+
+Lemma ijfile_text_IJB : forall bs, ijfile_text (map IJB bs) = ifile_text bs.
+Proof. induction bs as [|b bs IH]; [reflexivity|]. rewrite map_cons, ijfile_text_cons, IH. reflexivity. Qed.
+
+Lemma ij_of_IJB : forall bs, ijrecords_of (map IJB bs) = irecords_of bs /\
+  ijcomments_of (map IJB bs) = icomments_of bs /\ ijsections_of (map IJB bs) = isections_of bs.
+Proof.
+  induction bs as [|[x|cs|name nl|cs key val nl] bs [I1 [I2 I3]]]; [repeat split| | | |];
+    cbn [map ijrecords_of ijcomments_of ijsections_of irecords_of icomments_of isections_of];
+    rewrite ?I1, ?I2, ?I3; repeat split.
+Qed.
+
+Lemma ijrecords_app : forall x y, ijrecords_of (x ++ y) = ijrecords_of x ++ ijrecords_of y.
+Proof.
+  induction x as [|[[x0|cs|name nl|cs key val nl]|gl] x IH]; intros y; simpl; rewrite ?IH; reflexivity.
+Qed.
+Lemma ijcomments_app : forall x y, ijcomments_of (x ++ y) = ijcomments_of x ++ ijcomments_of y.
+Proof.
+  induction x as [|[[x0|cs|name nl|cs key val nl]|gl] x IH]; intros y; simpl; rewrite ?IH; reflexivity.
+Qed.
+Lemma ijsections_app : forall x y, ijsections_of (x ++ y) = ijsections_of x ++ ijsections_of y.
+Proof.
+  induction x as [|[[x0|cs|name nl|cs key val nl]|gl] x IH]; intros y; simpl; rewrite ?IH; reflexivity.
+Qed.
+
+(* the spans of the Junk entries *)
+Fixpoint ijspans (off w : nat) (bs : list ijblock) : list span :=
+  match bs with
+  | [] => []
+  | IJB (IBlank x) :: rest => ijspans off (w + length x) rest
+  | IJB (IComment cs) :: rest => ijspans (off + w + length (cbody cs)) 1 rest
+  | IJB (ISection name nl) :: rest => ijspans (off + w + S (length name) + 1) (length (eol nl)) rest
+  | IJB (IEntity cs key val nl) :: rest =>
+      ijspans (off + w + length (ctext cs) + length key + 1 + length val) (length (eol nl)) rest
+  | IJG gl :: rest =>
+      (off + w, off + w + length (igtext gl)) :: ijspans (off + w + length (igtext gl)) 0 rest
+  end.
+
+Lemma ijents_junk : forall bs off w,
+  filter (is_kind KJunk) (ijents off w bs) = map mk_junk (ijspans off w bs).
+Proof.
+  induction bs as [|[[x|cs|name nl|cs key val nl]|gl] rest IH]; intros off w;
+    cbn [ijents ijspans]; rewrite ?filter_app, ?flush_no by discriminate;
+    cbn [app filter is_kind mk_comment mk_junk e_kind map]; rewrite ?IH; reflexivity.
+Qed.
+
+Lemma ijspans_IJB : forall bs off w, ijspans off w (map IJB bs) = [].
+Proof.
+  induction bs as [|[x|cs|name nl|cs key val nl] bs IH]; intros off w; cbn [map ijspans]; auto.
+Qed.
+
+Lemma ijspans_prefix : forall bs, Forall legal_iblock bs -> forall off w R,
+  exists off' w', off' + w' = off + w + length (ifile_text bs) /\
+                  ijspans off w (map IJB bs ++ R) = ijspans off' w' R.
+Proof.
+  induction bs as [|b bs IH]; intros Hleg off w R.
+  - exists off, w. split; [simpl; lia|reflexivity].
+  - inversion Hleg as [|? ? Hb Hrest]; subst. specialize (IH Hrest).
+    rewrite ifile_text_cons, app_length.
+    destruct b as [x|cs|name nl|cs key val nl]; cbn [map app ijspans itext].
+    + destruct (IH off (w + length x) R) as [o [w' [E1 E2]]]. exists o, w'. split; [lia|exact E2].
+    + unfold legal_iblock in Hb. cbn [legal_iblockb] in Hb. apply andb_true_iff in Hb. destruct Hb as [Hc _].
+      assert (Hne : cs <> []) by (destruct cs; [discriminate|discriminate]).
+      destruct (IH (off + w + length (cbody cs)) 1 R) as [o [w' [E1 E2]]]. exists o, w'.
+      split; [|exact E2]. rewrite (ctext_body cs Hne), app_length. simpl. lia.
+    + destruct (IH (off + w + S (length name) + 1) (length (eol nl)) R) as [o [w' [E1 E2]]].
+      exists o, w'. split; [|exact E2]. simpl. rewrite !app_length. simpl. lia.
+    + destruct (IH (off + w + length (ctext cs) + length key + 1 + length val) (length (eol nl)) R)
+        as [o [w' [E1 E2]]].
+      exists o, w'. split; [|exact E2]. rewrite !app_length. simpl. rewrite !app_length. lia.
+Qed.
+
+(* a file printed from two block lists with ONE garbage region between them: every record,
+   comment and section header is recovered unchanged, and there is exactly one Junk entry,
+   whose span is exactly the region *)
+Theorem ini_junk_one_region : forall (bs1 : list iblock) (gl : list str) (bs2 : list iblock),
+  Forall legal_iblock bs1 -> legal_igarbage gl = true -> Forall legal_iblock bs2 ->
+  ijadjacent_ok (iwith_garbage bs1 gl bs2) ->
+  let s := ifile_text bs1 ++ igtext gl ++ ifile_text bs2 in
+  let p := length (ifile_text bs1) in
+  exists es, walk_ini s = Ok es /\
+    map (entity_record s) (filter (is_kind KEntity) es) = irecords_of bs1 ++ irecords_of bs2 /\
+    map (fun e => span_text s (e_span e)) (filter (is_kind KComment) es) =
+      icomments_of bs1 ++ icomments_of bs2 /\
+    map (fun e => opt_text s (e_val e)) (filter (is_kind KSection) es) =
+      isections_of bs1 ++ isections_of bs2 /\
+    filter (is_kind KJunk) es = [mk_junk (p, p + length (igtext gl))] /\
+    slice s p (p + length (igtext gl)) = igtext gl.
+Proof.
+  intros bs1 gl bs2 H1 Hg H2 Hadj s p.
+  assert (Hleg : Forall legal_ijblock (iwith_garbage bs1 gl bs2)).
+  { unfold iwith_garbage. apply Forall_app. split; [|constructor; [exact Hg|]];
+      rewrite Forall_map; assumption. }
+  assert (Es : ijfile_text (iwith_garbage bs1 gl bs2) = s).
+  { unfold iwith_garbage, s. rewrite ijfile_text_app, ijfile_text_cons, !ijfile_text_IJB. reflexivity. }
+  exists (ijentries_of (iwith_garbage bs1 gl bs2)).
+  pose proof (blocks_ini_junk _ Hleg Hadj) as Hw. rewrite Es in Hw.
+  destruct (ijents_views _ Hleg [] []) as [V1 [V2 [V3 _]]]. cbn [app length] in V1, V2, V3.
+  rewrite Es in V1, V2, V3. fold (ijentries_of (iwith_garbage bs1 gl bs2)) in V1, V2, V3.
+  destruct (ij_of_IJB bs1) as [A1 [A2 A3]]. destruct (ij_of_IJB bs2) as [B1 [B2 B3]].
+  split; [exact Hw|]. split; [|split; [|split; [|split]]].
+  - rewrite V1. unfold iwith_garbage. rewrite ijrecords_app. cbn [ijrecords_of]. rewrite A1, B1. reflexivity.
+  - rewrite V2. unfold iwith_garbage. rewrite ijcomments_app. cbn [ijcomments_of]. rewrite A2, B2. reflexivity.
+  - rewrite V3. unfold iwith_garbage. rewrite ijsections_app. cbn [ijsections_of]. rewrite A3, B3. reflexivity.
+  - unfold ijentries_of. rewrite ijents_junk. unfold iwith_garbage.
+    destruct (ijspans_prefix bs1 H1 0 0 (IJG gl :: map IJB bs2)) as [o [w' [E1 E2]]].
+    rewrite E2. cbn [ijspans]. rewrite ijspans_IJB. cbn [map]. simpl in E1. rewrite E1. reflexivity.
+  - unfold s, p. apply slice_mid.
+Qed.
+Print Assumptions ini_junk_one_region.
+
+(*  [Str] / k=v / "garb" "" " x;y" / ;c #d a b = x ; y  *)
+Example ijx_one_region :
+  let bs1 := [ix_sec; ix_e1] in let gl := [A [103; 97; 114; 98]; []; A [32; 120; 59; 121]] in
+  let bs2 := [ix_e2; ix_e3] in
+  Forall legal_iblock bs1 /\ legal_igarbage gl = true /\ Forall legal_iblock bs2 /\
+  ijadjacent_ok (iwith_garbage bs1 gl bs2) /\
+  length (ifile_text bs1) = 10 /\ length (igtext gl) = 11.
+Proof.
+  split; [repeat constructor|]. split; [reflexivity|]. split; [repeat constructor|].
+  split; [vm_compute; reflexivity|]. split; reflexivity.
+Qed.
